@@ -98,10 +98,14 @@ DRIVERS = {
     "C13": [("rand", ["-maxv", "4", "-weird", "0.05"], 480, 12000), ("rand", ["-maxv", "6", "-weird", "0"], 160, 4000),
             ("exhaust", ["-v", "4", "-outs", "nil,skipparents", "-orders", "3"], 0, 0),
             ("exhaust", ["-v", "3", "-outs", "nil,err,skipparents", "-orders", "2", "-limit", "2"], 0, 0),
+            ("exhaust", ["-v", "3", "-outs", "nil,err,skipparents", "-orders", "1", "-readd"], 0, 0),
+            ("rand", ["-maxv", "4", "-weird", "0.7"], 160, 4000),
             ("follow", [], 800, 16000)],
     "C14": [("rand", ["-maxv", "4", "-weird", "0.05"], 480, 12000), ("rand", ["-maxv", "5", "-weird", "0"], 160, 4000),
             ("exhaust", ["-v", "4", "-outs", "nil,skipparents", "-orders", "3"], 0, 0),
             ("exhaust", ["-v", "4", "-outs", "nil,err", "-orders", "2", "-limit", "2"], 0, 0),
+            ("exhaust", ["-v", "3", "-outs", "nil,err,skipparents", "-orders", "1", "-readd"], 0, 0),
+            ("rand", ["-maxv", "4", "-weird", "0.7"], 160, 4000),
             ("follow", [], 800, 16000)],
     "C15": [("rand", ["-maxv", "4", "-weird", "0.05"], 320, 8000), ("two", ["-maxv", "3"], 160, 4000),
             ("exhaust", ["-v", "4", "-outs", "nil", "-orders", "1", "-limit", "1"], 0, 0),
@@ -283,6 +287,10 @@ def attribute(r):
         return (INV_PROP.get(r["invariant"], "C16"),)
     ev = r["event"].get("ev")
     if ev == "launch":
+        if r["event"].get("k") != "run" and (r["why"] or "") == "dependency-not-finished":
+            # a task reported as skipped-after-failure while one of its dependencies is still running: no function is
+            # entered (C13 holds), but the report is decided before the dependency's outcome is known (C14)
+            return ("C14",)
         return DIAG_PROP.get(r["why"] or "", ("C14",))
     p = EV_PROP.get(ev, "C16")
     return p if isinstance(p, tuple) else (p,)
